@@ -1,6 +1,6 @@
 (** Property C20 — theorems only (TM-string half; the header half is added below when built). *)
 From Coq Require Import List Bool ZArith NArith QArith.
-From DV Require Import Common.Res Common.Str Common.F64 Common.PyNum Time.Model Time.Spec Time.Proofs.
+From DV Require Import Common.Res Common.Str Common.F64 Common.PyNum Time.Model Time.Spec Time.Proofs Time.SrcEq Generated.T_time.
 Import ListNotations.
 Local Open Scope nat_scope.
 
@@ -23,6 +23,31 @@ Theorem C20_tm_hms : forall colons hh mm ss frac,
   hh < 100 -> mm < 100 -> ss < 100 -> all_digits frac = true ->
   dcm_time_to_sec (tm_hms colons hh mm ss frac) = Ok (tm_value hh mm ss frac).
 Proof. exact tm_hms_ok. Qed.
+
+(** The same statements for the definitions TRANSLATED from the current Python sources of both
+    modules (Generated/T_time.v): what the code says now, not only what the hand model says. *)
+Theorem C20_tm_src_is_model :
+  (forall s, dcm_time_to_sec_src s = dcm_time_to_sec s) /\ (forall s, tm_to_seconds_src s = tm_to_seconds s).
+Proof. split; [exact dcm_time_to_sec_src_eq | exact tm_to_seconds_src_eq]. Qed.
+
+Theorem C20_tm_src_same : forall s, dcm_time_to_sec_src s = tm_to_seconds_src s.
+Proof. exact src_same. Qed.
+
+Theorem C20_tm_src_hms : forall colons hh mm ss frac,
+  hh < 100 -> mm < 100 -> ss < 100 -> all_digits frac = true ->
+  dcm_time_to_sec_src (tm_hms colons hh mm ss frac) = Ok (tm_value hh mm ss frac) /\
+  tm_to_seconds_src (tm_hms colons hh mm ss frac) = Ok (tm_value hh mm ss frac).
+Proof. exact src_hms. Qed.
+
+Theorem C20_tm_src_hm : forall colons hh mm, hh < 100 -> mm < 100 ->
+  dcm_time_to_sec_src (tm_hm colons hh mm) = Ok (FFin (f_of_Z (whole_secs hh mm))) /\
+  tm_to_seconds_src (tm_hm colons hh mm) = Ok (FFin (f_of_Z (whole_secs hh mm))).
+Proof. exact src_hm. Qed.
+
+Theorem C20_tm_src_h : forall hh, hh < 100 ->
+  dcm_time_to_sec_src (tm_h hh) = Ok (FFin (f_of_Z (Z.of_nat hh * 3600))) /\
+  tm_to_seconds_src (tm_h hh) = Ok (FFin (f_of_Z (Z.of_nat hh * 3600))).
+Proof. exact src_h. Qed.
 
 (** non-vacuity: "13:05:59.250" denotes 47159.25 exactly *)
 Example C20_tm_example :
